@@ -174,9 +174,15 @@ func hReach(fr *frame, a []value) value {
 	return nil
 }
 
+// hBlockedGoroutines lets every runnable goroutine run until it ends or blocks,
+// then returns the number of goroutines that are still blocked (leaked).
 func hBlockedGoroutines(fr *frame, a []value) value {
+	st := fr.i.st
+	for k := 0; k < 10000 && len(st.runq) > 0; k++ {
+		st.yield(fr.g)
+	}
 	n := 0
-	for _, g := range fr.i.st.gors {
+	for _, g := range st.gors {
 		if !g.done && g != fr.g {
 			n++
 		}
